@@ -176,8 +176,19 @@ def run(prog, ctx):
                 return True
             return False
         ok, _ = cfg.all_paths_cut(b, out_of_range)
+        how = "every path carries !(%s < N)" % pname
+        if not ok:
+            # the same decided code by code: with the parameter set to any documented code no consistent path gets to the buffer
+            # (a switch over the enumerators that hands out literals, NULL - and then the buffer - for every other number)
+            try:
+                codes = [c["val"] for c in prog.enum("econf_err")["enumerators"]]
+                ok = bool(codes) and all(cfg.feasible_reach(b, lambda lit, bb, i: False, lambda a: True, init_facts={pname: bool(v), "=" + pname: v}) is None
+                                         for v in codes)
+                how = "not reachable with %s set to any of the %d documented codes" % (pname, len(codes))
+            except Inconclusive:
+                ok = False
         if ok:
-            ctx.ok("T2", "static text buffer only for out-of-range codes", ref.where, "every path carries !(%s < N)" % pname)
+            ctx.ok("T2", "static text buffer only for out-of-range codes", ref.where, how)
         else:
             ctx.fail("T2", "static text buffer only for out-of-range codes", ref.where,
                      "the function-static buffer is used for valid codes too: concurrent econf_errString calls race",
